@@ -245,6 +245,10 @@ def views(ctx: Ctx):
 def check(ctx: Ctx) -> None:
     ctx.guard("R5.1", PARSE, table, ctx)
     ctx.guard("R5.view", "packets.py::CCSDSPacket", views, ctx)
+    # container selection with (A or B) and (C or D) criteria, two matching siblings, a concrete root with no matching child
+    from .c01 import end_to_end, end_to_end_second
+    ctx.guard("R5.e2", PARSE, end_to_end_second, ctx, "R5.e2")
+    ctx.guard("R5.e", PARSE, end_to_end, ctx, "R5.e")     # two-level inheritance with conditions on raw / calibrated operands
     ctx.guard("R5.5", PARSE, error_path, ctx)
 
 
@@ -281,7 +285,7 @@ SPEC = PropSpec(
     pid="C05",
     title="Container inheritance selects the unique matching structure, in order",
     check=check,
-    floors={"R5.1": 19, "R5.5": 2, "R5.view": 1},
+    floors={"R5.1": 19, "R5.5": 2, "R5.view": 1, "R5.e2": 10, "R5.e": 12},
     explanation=("Decision table of the descend loop by abstract interpretation: a checker-authored tree (abstract root with "
                  "eight children; an abstract and two concrete second-level containers with 0/1/2 satisfiable children; "
                  "a nested container referenced twice; an unconditional child whose BaseContainer has no "
